@@ -109,6 +109,19 @@ HOSTILE_CHARS = ("²³¹①②⑳❶١٢٣۱१১１２"
                  "𐏿\x00\x1f\x7f​‮﻿́ \t\n0123456789abcJFMASONDjanmarch{}\"#")
 
 
+def lookalikes():
+    """Month names with a letter replaced by a character that some case-insensitive comparisons (but not
+    str.lower()) identify with it: long s, dotless i, dotted capital I, Kelvin sign, fullwidth letters."""
+    out = []
+    repl = {"s": ["\u017f"], "i": ["\u0131", "\u0130"], "k": ["\u212a"], "a": ["\uff41", "\u0430"], "e": ["\u0435"], "o": ["\u043e", "\uff4f"]}
+    for name in ABBR + [f.lower() for f in FULL]:
+        for i, c in enumerate(name):
+            for r in repl.get(c, []):
+                v = name[:i] + r + name[i + 1:]
+                out += [v, v.capitalize(), v.upper()]
+    return sorted(set(out))
+
+
 def cases(tier, seed, shard, nshards):
     idx = 0
     # (a) exhaustive month spellings
@@ -119,6 +132,12 @@ def cases(tier, seed, shard, nshards):
             idx += 1
     # (b) stated non-month values, and an entry without a month field
     for v in NONMONTH:
+        if idx % nshards == shard:
+            yield {"k": "non", "v": enc(v)}
+        idx += 1
+    for v in lookalikes():
+        if v.lower() in ABBR or v.lower() in [f.lower() for f in FULL]:
+            continue            # e.g. an upper-cased look-alike that str.lower() maps back to the month name
         if idx % nshards == shard:
             yield {"k": "non", "v": enc(v)}
         idx += 1
